@@ -335,6 +335,8 @@ def check(run):
     run_cases(run, worker, cases)
     from props import C12_sym
     guarded(run, C12_sym.prove)
+    from props import C11_sym
+    guarded(run, C11_sym.prove, only=("update",))      # TTNS.update_2site (tdvp_ps2) in kernel-stub mode, incl. the per-node limit probe
     run.rule = ("random trees with 2..4(5) nodes (shape enumeration, groupings, dummy nodes) x {spin+qn, electron-phonon} x 4 tree schemes x real/imaginary time x |H|t in "
                 "{0.1, 0.5}; 3-step histories; one-site PS at bond limits 1, 2 (norm/energy/limit); linear tree vs chain implementation; purified P x Q trees "
                 "(max_entangled_ex + imaginary time) vs dense Gibbs state; distinct = case x clause")
